@@ -64,7 +64,9 @@ func entries() []entry {
 		{"ReadArray+ReadMap+Skip", func(r restlicodec.Reader) error {
 			return r.ReadArray(func(r restlicodec.Reader) error { return r.ReadMap(skipAll) })
 		}},
-		{"ReadArray+Skip", func(r restlicodec.Reader) error { return r.ReadArray(func(r restlicodec.Reader) error { return r.Skip() }) }},
+		{"ReadArray+Skip", func(r restlicodec.Reader) error {
+			return r.ReadArray(func(r restlicodec.Reader) error { return r.Skip() })
+		}},
 		{"ReadRecord", func(r restlicodec.Reader) error {
 			return r.ReadRecord(requiredA(), func(r restlicodec.Reader, f string) error {
 				if f == "a" {
